@@ -265,6 +265,32 @@ fn bytes_mode(inputs: &[Vec<u8>], seed: u64, fuzz: usize, si: usize, sn: usize, 
                              "parse": {"kind": p["kind"], "class": p.get("class").cloned().unwrap_or(json!("-"))}}));
             n += 1;
         }
+        // long runs of one repeated unit (every byte of the alphabet, line breaks, the shortest frames of
+        // every type): cost and stack use must not grow with the length of the run.  Recorded by shape;
+        // the same unit repeated 64 times is judged in full as an ordinary observation.
+        let mut units: Vec<Vec<u8>> = ALPHA.iter().map(|b| vec![*b]).collect();
+        for u in ["\r\n", ":1\r\n", "$0\r\n\r\n", "+\r\n", "-\r\n", "$-1\r\n", "*0\r\n", "*-1\r\n", "*2\r\n", "$1\r\n", "\n\r", " \r\n"] {
+            units.push(u.as_bytes().to_vec());
+        }
+        units.sort();
+        units.dedup();
+        for u in &units {
+            let short: Vec<u8> = u.iter().copied().cycle().take(u.len() * 64).collect();
+            observe(&short, 0, "run64", out, pend);
+            let rc = run_check(&short, 0);
+            let rp = run_parse(&short, 0);
+            let k = (1usize << 20) / u.len();
+            let long: Vec<u8> = u.iter().copied().cycle().take(u.len() * k).collect();
+            pend.set(&json!({"ev": "longrun", "unit": bytes_json(u), "k": k, "phase": "check"}));
+            let c = run_check(&long, 0);
+            pend.set(&json!({"ev": "longrun", "unit": bytes_json(u), "k": k, "phase": "parse", "check": c}));
+            let p = run_parse(&long, 0);
+            pend.clear();
+            out.emit(&json!({"ev": "longrun", "unit": bytes_json(u), "k": k, "check": {"kind": c["kind"]}, "ref_check": {"kind": rc["kind"]},
+                             "parse": {"kind": p["kind"], "class": p.get("class").cloned().unwrap_or(json!("-"))},
+                             "ref_parse": {"kind": rp["kind"], "class": rp.get("class").cloned().unwrap_or(json!("-"))}}));
+            n += 2;
+        }
         // absurd declared lengths: never allocate or loop on the declared size
         for s in ["*1000000000000\r\n", "*9223372036854775807\r\n", "$9223372036854775807\r\nab", "$9223372036854775806\r\n",
                   "*2147483648\r\n:1\r\n", "*4294967296\r\n"] {
